@@ -275,3 +275,29 @@ Proof.
   - replace (255 * 8388608 <=? (ef - 896) * 8388608 + (q - 8388608)) with false by (symmetry; apply N.leb_gt; lia). lia.
   - intros Hov. replace (255 * 8388608 <=? (ef - 896) * 8388608 + (q - 8388608)) with true by (symmetry; apply N.leb_le; lia). reflexivity.
 Qed.
+
+(** f64 -> f32, results in the f32 subnormal range (biased f64 exponent 1 <= ef <= 896): the bit
+    pattern IS the integer nearest (ties to even) to value / 2^-149 - the unit of f32 subnormals -
+    namely round_even (2^52 + mf) (926 - ef); it never reaches infinity. *)
+Theorem f32_of_f64_subnormal mf ef :
+  mf < 2 ^ 52 -> 1 <= ef -> ef <= 896 ->
+  encode 24 8 false (mf + 2 ^ 52) (Z.of_N ef - 1075) = round_even (mf + 2 ^ 52) (926 - ef)
+  /\ round_even (mf + 2 ^ 52) (926 - ef) <= 2 ^ 23.
+Proof.
+  intros Hmf Hlo Hhi. unfold encode. cbv zeta. rewrite (size_53 mf Hmf).
+  change (N.shiftl 1 (8 - 1) - 1) with 127. change (Z.of_N 127) with 127%Z.
+  replace (1 - 127 <=? Z.of_N ef - 1075 + Z.of_N 53 - 1)%Z with false by (symmetry; apply Z.leb_gt; lia).
+  replace (Z.to_N (1 - 127 - Z.of_N 24 + 1 - (Z.of_N ef - 1075))) with (926 - ef) by lia.
+  change (N.shiftl 1 8 - 1) with 255. change (24 - 1) with 23. rewrite N.shiftl_mul_pow2, N.add_0_l.
+  set (s := 926 - ef). assert (Hs : 0 < s) by (unfold s; lia).
+  destruct (round_even_nearest (mf + 2 ^ 52) s Hs) as (H1 & _ & _). set (q := round_even (mf + 2 ^ 52) s) in *.
+  assert (Hq : q <= 2 ^ 23).
+  { assert (Hps : 2 ^ s = 2 * 2 ^ (s - 1)) by (apply pow_split; exact Hs).
+    assert (Hbig : 2 ^ 53 <= 2 ^ 23 * 2 ^ s) by (rewrite <- N.pow_add_r; apply N.pow_le_mono_r; [lia|unfold s; lia]).
+    assert (Hp1 : 0 < 2 ^ (s - 1)) by (apply N.neq_0_lt_0, N.pow_nonzero; lia).
+    set (P := 2 ^ (s - 1)) in *. rewrite Hps in *.
+    change (2 ^ 52) with 4503599627370496 in *. change (2 ^ 53) with 9007199254740992 in *. change (2 ^ 23) with 8388608 in *. nia. }
+  split; [|exact Hq].
+  change (2 ^ 23) with 8388608 in *.
+  replace (255 * 8388608 <=? q) with false by (symmetry; apply N.leb_gt; lia). reflexivity.
+Qed.
